@@ -283,6 +283,11 @@ SPECS["C17"][1].extend([
 SPECS["C12"][1].append(("C12_every_load_between_instances_of_every_script", "every_load_between_instances", "several instances: j.save(buffer); i.load(buffer) at any point of any accepted multi-instance script (the instances may be copies, may have been loaded before, may have gone through any calls) leaves instance i with instance j's activity by exactly the lifecycle change needed, enter/exit/reenter callbacks only"))
 SPECS["C17"][1].append(("C17_every_copy_equals_its_original", "every_copy_equals_its_original", "copy construction at any point of any accepted multi-instance script: the new instance's core is the original's (so active state, isActive table, outstanding request, previous transition, plan and serialized form are equal: observe), no callback ran on it, and the original is untouched"))
 
+SPECS["C17"][1].extend([
+   ("C17_fresh_serial_buffer_ignores_garbage", "fresh_buffer_ignores_garbage", "a default-constructed serial buffer is the all-zero image whatever the memory held (its byte array has an initialiser in the source read on this run)"),
+   ("C17_every_member_is_initialised", "every_member_is_initialised", "catch-all over the facts regenerated on this run: no scalar member of any record a machine is made of lacks an initialiser"),
+])
+
 if __name__ == "__main__":
     which = sys.argv[1:] or sorted(SPECS)
     ok = True
